@@ -108,8 +108,13 @@ func LoadProgram(repo string, cfg BuildConfig, whole bool, overlay map[string][]
 		sort.Strings(bad)
 		return nil, fmt.Errorf("type/load errors (the tree must compile):\n  %s", strings.Join(bad, "\n  "))
 	}
-	prog, ssapkgs := ssautil.AllPackages(roots, ssa.InstantiateGenerics)
-	_ = ssapkgs
+	var prog *ssa.Program
+	if whole {
+		prog, _ = ssautil.AllPackages(roots, ssa.InstantiateGenerics)
+	} else {
+		// function bodies for the root (module) packages only
+		prog, _ = ssautil.Packages(roots, ssa.InstantiateGenerics)
+	}
 	prog.Build()
 	p.SSA = prog
 	for _, sp := range prog.AllPackages() {
